@@ -29,7 +29,10 @@ META = {
                   "substitutes the backend's host) and none for legacy/bungeeguard combined with a ServerInfo "
                   "addresser (the addresser replaces the forwarding scheme by design). Part 1 may be host:port or "
                   "host of the backend. A Forge-marker client may carry one extra 'extraData' property. Logins "
-                  "that never reach the backend carry no obligation; more than 2% of them is a tool error.",
+                  "that never reach the backend carry no obligation; more than 2% of them is a tool error. Forwarding mode "
+                  "and secrets are restart-required settings (Proxy.ApplyLiveConfig only accepts Lite route changes; the "
+                  "harness probes that on every rig and a run where such a change is accepted is a tool error), so one "
+                  "player never sees two forwarding configurations and single-connection scenarios are the whole space.",
     "technique": "TLA+ reference operators + scenario enumeration by TLC, live-rig replay, TLC trace validation",
 }
 
@@ -83,6 +86,9 @@ def run(ctx):
     ctx.harness("./c19", "TestTrace", timeout=ctx.pick(300, 900))
     st = json.load(open(ctx.path("stats.json")))
     ctx.log("live rig: %d logins, %d reached the backend" % (st["cases"], st["reached"]))
+    if st.get("reload_accepted"):
+        raise vlib.ToolError("the proxy accepted a live change of forwarding mode / secret (%d times): C19 must be extended "
+                             "with histories 'connect, reload, connect to a second server'" % st["reload_accepted"])
     if st["unreached"] * 50 > st["cases"]:
         raise vlib.ToolError("%d of %d logins never reached the backend" % (st["unreached"], st["cases"]))
     recs = vlib.read_ndjson(ctx.path("trace.ndjson"))
@@ -114,6 +120,7 @@ def run(ctx):
         "scenarios_enumerated": total,
         "per_mode_hook": st["classes"],
         "unreached": st["unreached"],
+        "live_forwarding_changes_refused": st.get("reload_refused", 0),
         "exhaustive": not ctx.quick,
         "states": r.distinct + tstates,
     }
